@@ -20,6 +20,9 @@ type ReadResult struct {
 	WALMode bool
 	SHMPageN, SHMMxFrame uint32
 	HaveSHM bool
+	// Created lists the files ("shm", "wal") this reader itself had to create,
+	// as a SQLite connection opening a WAL-mode database does.
+	Created []string
 }
 
 // ReadDB takes the read lock SQLite would take on this node's copy of db, reads
@@ -28,14 +31,24 @@ type ReadResult struct {
 // lock right now.
 func (n *Node) ReadDB(owner uint64, db string, under func()) (res ReadResult, err error) {
 	m := n.M
-	f, e := m.Open(owner, db)
-	if e != nil {
-		if mount.Errno(e) == syscall.ENOENT {
-			res.Pos = n.Pos(db)
+	var f *mount.File
+	for try := 0; ; try++ {
+		// No lock can be held on a file that does not exist: pair "absent" with a
+		// position only if the position did not move around the failed open.
+		p0 := n.Pos(db)
+		var e error
+		if f, e = m.Open(owner, db); e == nil {
+			break
+		}
+		if mount.Errno(e) != syscall.ENOENT {
+			return res, fmt.Errorf("open %s: %w", db, e)
+		}
+		if p1 := n.Pos(db); p0 == p1 || try > 100 {
+			res.Pos = p1
 			return res, nil
 		}
-		return res, fmt.Errorf("open %s: %w", db, e)
 	}
+	var e error
 	defer f.Close()
 	res.Exists = true
 	// SHARED lock on the database file (PENDING, SHARED range, release PENDING).
@@ -58,12 +71,17 @@ func (n *Node) ReadDB(owner uint64, db string, under func()) (res ReadResult, er
 	var shm, wal *mount.File
 	if res.WALMode {
 		// A WAL-mode reader holds a READ lock on the shared-memory file.
-		if shm, _, e = m.OpenOrCreate(owner, db+"-shm"); e != nil {
+		var made bool
+		if shm, made, e = m.OpenOrCreate(owner, db+"-shm"); e != nil {
 			return res, fmt.Errorf("open shm: %w", e)
+		} else if made {
+			res.Created = append(res.Created, "shm")
 		}
 		defer shm.Close()
-		if wal, _, e = m.OpenOrCreate(owner, db+"-wal"); e != nil {
+		if wal, made, e = m.OpenOrCreate(owner, db+"-wal"); e != nil {
 			return res, fmt.Errorf("open wal: %w", e)
+		} else if made {
+			res.Created = append(res.Created, "wal")
 		}
 		defer wal.Close()
 		slot := uint64(123)
